@@ -14,7 +14,7 @@ RULE = ('cases = role name X (1-6 abstract letters: ASCII letters, digits, punct
         'without the keys (string and non-string scalar values) x credentials with 0-6 roles (duplicates, case variants), '
         'an empty list, or no roles entry x the check alone, under not, or inside a random expression with other role '
         'checks. Non-trivial = the reference allows for some role of the credentials AND X is spelled in a different '
-        'case than the matching role, or denies although a role shares a prefix with X; distinct = distinct (rule, target, creds). Credentials are passed as a dict, a RequestContext or its policy-values mapping. Stratum `sequence`: one credentials object whose roles list is mutated in place (append, remove, item assignment, clear) between consecutive calls.')
+        'case than the matching role, or denies although a role shares a prefix with X; distinct = distinct (rule, target, creds). Credentials are passed as a dict, a RequestContext or its policy-values mapping. Stratum `list-form`: list-of-lists rules whose role names contain spaces / parentheses. Stratum `overlap`: two requests evaluate the same rule at the same time (every single pre-emption of one by the other, deterministic scheduler). Stratum `sequence`: one credentials object whose roles list is mutated in place (append, remove, item assignment, clear) between consecutive calls.')
 ASSUMPTIONS = ['letters with context-dependent or one-to-many case mappings are excluded, as the quantifier says',
                'a stray % outside %(key)s is excluded (statement is about %(key)s placeholders)',
                'credentials roles are a list of strings']
@@ -22,7 +22,7 @@ LEVEL_TEXT = ('Seeded sampling of the (role name, form, target, credentials, con
               'independent of any case-folding routine; the space is infinite, so sampling with a structured generator is the level.')
 LEVEL_NOTE = 'trusted: the letter table is verified at start-up to be one-to-one under str.lower/str.upper'
 PLAN = {'quick': dict(shards=4, wall=60), 'thorough': dict(shards=16, wall=400)}
-MIN = {'evaluations': 5000, 'allow_decisions': 500, 'deny_decisions': 500, 'case_variant_matches': 100, 'sequence_decisions': 1000, 'non_dict_credentials': 1000}
+MIN = {'evaluations': 5000, 'allow_decisions': 500, 'deny_decisions': 500, 'case_variant_matches': 100, 'sequence_decisions': 1000, 'non_dict_credentials': 1000, 'list_form_role_names': 200, 'overlapping_evaluations': 100}
 ANCHORS = ['oslo_policy._checks:RoleCheck.__call__', 'oslo_policy.policy:Enforcer.enforce']
 REQUIRED_ANCHORS = ['oslo_policy.policy:Enforcer.enforce']
 N = {'quick': 100000, 'thorough': 3000000}
@@ -240,6 +240,59 @@ def replay_sequence(ctx, real, case):
             return
 
 
+def check_list_form(ctx, real, rnd):
+    """List-of-lists rules are not tokenised: there a role name may contain spaces and parentheses."""
+    policy, enf = real
+    base = mk_name(rnd)
+    deco = rnd.choice(['%s(EU)', 'Team %s', '%s )', '(%s)', '%s  x', '%s)', ' %s'])
+    def name(ids):
+        return deco % spell(rnd, ids)
+    held = rnd.random() < 0.6
+    other = mk_name(rnd)
+    rule = [['role:' + name(base)]] if rnd.random() < 0.5 else ['role:' + name(base)]
+    roles = [name(base)] if held else [name(other)]
+    if other == base and not held:
+        return
+    ctx.case(['list-form', rule, roles], nontrivial=True, stratum='list-form')
+    ctx.count('list_form_role_names')
+    try:
+        enf.set_rules(policy.Rules.from_dict({'p': rule}))
+        got = bool(enf.enforce('p', {}, {'roles': roles}))
+    except Exception as e:
+        got = 'EXC:' + type(e).__name__
+    if got != held:
+        ctx.violation('list-form-role-name-mismatch', dict(list_form=True, rule=rule, roles=roles, want=held),
+                      {'rule': rule, 'roles': roles, 'expected': held, 'observed': got})
+
+
+def check_overlap(ctx, real, rnd):
+    """Two requests evaluate the SAME rule (shared check objects) at the same time with different targets: each must be
+    decided as if it ran alone.  Every single pre-emption of one by the other is executed."""
+    from pv.mon import sched
+    policy, enf = real
+    a, b = mk_name(rnd), mk_name(rnd)
+    if a == b:
+        return
+    rule = rnd.choice(['role:%(k)s', 'not role:%(k)s', 'role:%(k)s and @', 'role:x%(k)s or role:%(k)s'])
+    enf.set_rules(policy.Rules.from_dict({'p': rule}))
+    ta, tb = {'k': spell(rnd, a)}, {'k': spell(rnd, b)}
+    ca, cb = {'roles': [spell(rnd, a)]}, {'roles': [spell(rnd, a)]}       # both hold role a only
+    def mk(t, c):
+        return lambda: (lambda: bool(enf.enforce('p', dict(t), {'roles': list(c['roles'])})))
+    ref = None
+    for k, ra, rb in sched.overlap_results(mk(ta, ca), mk(tb, cb)):
+        ctx.count('overlapping_evaluations')
+        if k == 0:
+            ref = (ra, rb)
+            continue
+        if (ra, rb) != ref:
+            ctx.violation('decision-depends-on-a-concurrent-evaluation', dict(overlap=True, rule=rule, ta=ta, tb=tb, roles=ca['roles']),
+                          {'rule': rule, 'request_a': [ta, ca], 'request_b': [tb, cb], 'alone': list(ref), 'overlapping': [ra, rb],
+                           'a_preempted_at_boundary': k})
+            return
+    ctx.case(['overlap', rule, ta, tb], nontrivial=True, stratum='overlap')
+
+
 def run(ctx):
     self_check()
     from oslo_policy import policy
@@ -254,7 +307,18 @@ def run(ctx):
             ctx.sample({k: case[k] for k in ('rule', 'target', 'creds', 'want')})
         if i % 5 == 0:
             check_sequence(ctx, (policy, enf), ctx.rnd)
+        if i % 50 == 0:
+            check_list_form(ctx, (policy, enf), ctx.rnd)
     ctx.stratum('random', exhaustive=False)
+    # overlapping evaluations last: the line-level scheduler slows everything that runs after it is installed
+    from pv.mon import sched
+    try:
+        for i in range(12 if ctx.tier == 'quick' else 200):
+            if ctx.expired():
+                break
+            check_overlap(ctx, (policy, enf), ctx.rnd)
+    finally:
+        sched.uninstall()
 
 
 def replay(ctx, case):
